@@ -18,7 +18,7 @@ BF_PATTERNS = {
     "wide-range": ["1e-12", "1", "3.3392e-05", "6.5e-08", "0.988228297", "1.0e-3", "2E-4", "0.011738247"],
     "many-digits": ["0.123456789", "0.987654321", "0.333333333333", "0.1234567", "0.12345675", "0.99999995", "0.00010000005", "0.5000000499"],
 }
-N_LINES = [1, 2, 3, 4, 5, 8]
+N_LINES = [1, 2, 3, 4, 5, 6, 7, 8]
 FS_VARIANTS = [
     [["K-", "pi+"], ["K-", "pi+", "pi0"], [], ["D*(2010)+", "anti-nu_e"], ["pi0", "pi0", "pi0", "pi0"], ["gamma"], ["K_S0", "K_S0"], ["e+", "e-", "gamma"]],
     [["pi+", "K-"], ["b", "a", "c"], ["z"], ["y", "x"], ["K-", "pi+"], [], ["q"], ["pi0", "K-", "pi+"]],
